@@ -32,3 +32,8 @@ package dag
 //@     invariant len(ops) <= rangeindex + 1
 //@     invariant ops == nil || fresh(ops)
 //@     invariant forall k int :: { ops[k] } 0 <= k && k < len(ops) ==> ops[k] != nil
+
+//@ func read
+//@   props C07 C03 C01
+//@   nopanic
+//@   requires repo != nil && def.OperationUnmarshaler != nil && wrapper != nil
